@@ -207,6 +207,10 @@ func checkSize(c *DecorCase) string {
 	}
 	v := new(big.Int).Exp(big.NewInt(c.C.Base), big.NewInt(c.C.E), nil)
 	v.Mul(v, big.NewInt(c.C.M)).Add(v, big.NewInt(c.C.D))
+	if c.C.E == 9 {
+		// the top of the int64 range (Decor.tla: e = 9 stands for MaxInt64 + d)
+		v = new(big.Int).Add(big.NewInt(math.MaxInt64), big.NewInt(c.C.D))
+	}
 	if !v.IsInt64() {
 		return ""
 	}
